@@ -3,6 +3,7 @@ package gen
 import (
 	"fmt"
 	"math/big"
+	"sort"
 	"time"
 
 	sdk "github.com/cosmos/cosmos-sdk/types"
@@ -103,8 +104,25 @@ func opPut(g *G) bool {
 	credits := []*basket.BasketCredit{chain.BasketCredit(h.Batch.Denom, a)}
 	note := "put (" + k + ")"
 	if g.R.Chance(1, 8) {
-		credits = append(credits, chain.BasketCredit(h.Batch.Denom, "0.000001"))
+		// the same batch twice: split the amount if it is a plain value, else add a dust entry
+		if r, _, okp := monitor.ParseStrict(a); okp && r.Sign() > 0 && g.R.Bool() {
+			h1 := fmtRat(new(big.Rat).Quo(r, big.NewRat(2, 1)), 6)
+			h2 := fmtRat(new(big.Rat).Sub(r, rat(h1)), 6)
+			if rat(h1).Sign() > 0 && rat(h2).Sign() > 0 {
+				credits = []*basket.BasketCredit{chain.BasketCredit(h.Batch.Denom, h1), chain.BasketCredit(h.Batch.Denom, h2)}
+			}
+		}
+		if len(credits) == 1 {
+			credits = append(credits, chain.BasketCredit(h.Batch.Denom, "0.000001"))
+		}
 		note += ", same batch twice"
+		g.bump("dup:put-same-batch-twice")
+	}
+	for _, bb := range v.BasketBals {
+		if bb.Basket == b.ID && bb.Denom == h.Batch.Denom {
+			g.bump("put-into-existing-basket-row")
+			break
+		}
 	}
 	g.Do(g.App.MsgBasketPut(h.Acct, b.Denom, credits...), note)
 	return true
@@ -139,6 +157,37 @@ func firstBatchTokens(v *monitor.View, b *monitor.Basket) *big.Int {
 	return new(big.Int).Quo(t.Num(), t.Denom())
 }
 
+// spanTokens returns a token amount that drains the first `full` batches of the basket (oldest start
+// date first) and half of the next one; nil if the basket holds fewer than full+1 batches.
+func spanTokens(v *monitor.View, b *monitor.Basket, full int) *big.Int {
+	var bals []*monitor.BasketBal
+	for _, bb := range v.BasketBals {
+		if bb.Basket == b.ID && bb.Start != nil && bb.Bal.V != nil {
+			bals = append(bals, bb)
+		}
+	}
+	if len(bals) < full+1 {
+		return nil
+	}
+	sort.SliceStable(bals, func(i, j int) bool {
+		if c := bals[i].Start.Cmp(*bals[j].Start); c != 0 {
+			return c < 0
+		}
+		return bals[i].Denom < bals[j].Denom
+	})
+	tot := new(big.Rat)
+	for i := 0; i < full; i++ {
+		tot.Add(tot, bals[i].Bal.V)
+	}
+	tot.Add(tot, new(big.Rat).Quo(bals[full].Bal.V, big.NewRat(2, 1)))
+	tot.Mul(tot, big.NewRat(1000000, 1))
+	z := new(big.Int).Quo(tot.Num(), tot.Denom())
+	if z.Sign() <= 0 {
+		return nil
+	}
+	return z
+}
+
 func opTake(g *G) bool {
 	v := g.V()
 	bs := g.baskets(v)
@@ -160,7 +209,10 @@ func opTake(g *G) bool {
 	var amt *big.Int
 	kind := ""
 	first := firstBatchTokens(v, b)
+	span := spanTokens(v, b, 1+g.R.Intn(2))
 	switch r := g.R.Intn(100); {
+	case r < 22 && span != nil:
+		amt, kind = span, "span-batches-last-partly"
 	case r < 12:
 		amt, kind = big.NewInt(1), "1-token"
 	case r < 30 && first != nil:
@@ -311,6 +363,9 @@ func opSell(g *G) bool {
 		g.badPct = 0 // at most one deliberately invalid order per message
 	}
 	g.badPct = saved
+	if n > 1 {
+		g.bump("dup:sell-orders-same-batch")
+	}
 	seller := h.Acct
 	if g.bad() && g.R.Chance(1, 4) {
 		seller, note = g.otherUser(h.Acct), note+" — seller is not the holder"
@@ -348,6 +403,42 @@ func opUpdateSell(g *G) bool {
 	avail := v.Bal(o.Seller, o.Batch).T.V
 	if avail == nil {
 		avail = new(big.Rat)
+	}
+	if g.R.Chance(1, 8) && cur.Sign() > 0 {
+		// duplicates within one message: the same sell order 2-3 times
+		up := fmtRat(new(big.Rat).Add(cur, new(big.Rat).Mul(avail, big.NewRat(1, 2))), 6)
+		up2 := fmtRat(new(big.Rat).Add(cur, new(big.Rat).Mul(avail, big.NewRat(3, 4))), 6)
+		down := fmtRat(new(big.Rat).Mul(cur, big.NewRat(1, 2)), 6)
+		if rat(down).Sign() == 0 {
+			down = "0.000001"
+		}
+		mid := fmtRat(new(big.Rat).Mul(cur, big.NewRat(3, 4)), 6)
+		if rat(mid).Sign() == 0 {
+			mid = "0.000001"
+		}
+		upd := func(q, d string, e *time.Time) *market.MsgUpdateSellOrders_Update {
+			return &market.MsgUpdateSellOrders_Update{SellOrderId: o.ID, NewQuantity: q, NewAskPrice: bigCoin(d, ask), DisableAutoRetire: o.DisableAutoRetire, NewExpiration: e}
+		}
+		other := g.askDenom(v)
+		later := g.now.Add(time.Duration(1+g.R.Intn(7200)) * time.Second)
+		var us []*market.MsgUpdateSellOrders_Update
+		kind := ""
+		switch g.R.Intn(5) {
+		case 0:
+			us, kind = []*market.MsgUpdateSellOrders_Update{upd(up, denom, nil), upd(down, denom, nil)}, "up-then-down"
+		case 1:
+			us, kind = []*market.MsgUpdateSellOrders_Update{upd(down, denom, nil), upd(up, denom, nil)}, "down-then-up"
+		case 2:
+			us, kind = []*market.MsgUpdateSellOrders_Update{upd(down, denom, nil), upd(down, other, nil)}, "quantity-then-denom"
+		case 3:
+			us, kind = []*market.MsgUpdateSellOrders_Update{upd(up, denom, nil), upd(up, denom, &later)}, "quantity-then-expiration"
+		default:
+			us, kind = []*market.MsgUpdateSellOrders_Update{upd(down, denom, nil), upd(up, other, nil), upd(mid, denom, &later)}, "three-updates(down,up+denom,mid+expiration)"
+		}
+		_ = up2
+		g.bump("dup:update-same-order:" + kind)
+		g.Do(g.App.MsgUpdateSellOrders(seller, us...), note+" the same order "+fmt.Sprint(len(us))+" times in one message ("+kind+")")
+		return true
 	}
 	var exp *time.Time
 	switch g.R.Intn(7) {
@@ -562,6 +653,17 @@ func opBuy(g *G) bool {
 					note += " + dust (over-asking after the two fills)"
 				}
 				g.bump("buy:same-order-twice")
+			}
+		}
+	case 2:
+		// two different orders of the same seller and batch in one message
+		for _, o2 := range os {
+			if o2.ID != o.ID && o2.Seller == o.Seller && o2.Batch == o.Batch && idxOf(o2.Seller) != buyer {
+				b2, n2 := g.buyOrder(v, o2)
+				orders = append(orders, b2)
+				note += " | second order of the same seller and batch: " + n2
+				g.bump("dup:buy-two-orders-same-seller-batch")
+				break
 			}
 		}
 	case 1:
